@@ -205,6 +205,21 @@ mk U2; d=$D
 edit "$d/scale/ticks.go" 's.replace("\t\tfor l++; l <= maxLevel && ticker.CountTicks(l) > o.Max; l++ {\n\t\t}", "\t\tfor l++; l <= maxLevel; l++ {\n\t\t\tif ticker.CountTicks(l) <= o.Max {\n\t\t\t\tbreak\n\t\t\t}\n\t\t}")'
 expect U2 "$d" C17 translation_failed "break inside a loop"
 
+echo "== H7 harmless: Quantile tests the upper clamp first, interpolates through a temporary, and writes target = target - weight"
+mk H7; d=$D
+edit "$d/stats/sample.go" 's.replace("\t\tif k <= 0 {\n\t\t\treturn s.Xs[0]\n\t\t} else if k >= len(s.Xs) {\n\t\t\treturn s.Xs[len(s.Xs)-1]\n\t\t}\n\t\treturn s.Xs[k-1] + frac*(s.Xs[k]-s.Xs[k-1])", "\t\tif last := len(s.Xs) - 1; k > last {\n\t\t\treturn s.Xs[last]\n\t\t} else if k < 1 {\n\t\t\treturn s.Xs[0]\n\t\t}\n\t\tlo := s.Xs[k-1]\n\t\treturn lo + (s.Xs[k]-lo)*frac").replace("\t\t\ttarget -= weight\n\t\t\tif target < 0 {", "\t\t\ttarget = target - weight\n\t\t\tif 0 > target {")'
+expect H7 "$d" C10 ok
+
+echo "== B11 breaking: Quantile with the R6 plotting position q*(N+1) instead of R8"
+mk B11; d=$D
+edit "$d/stats/sample.go" 's.replace("n := 1/3.0 + q*(N+1/3.0) // R8", "n := q * (N + 1)")'
+expect B11 "$d" C10 tie_failed tie_Sample_Quantile
+
+echo "== B12 breaking: weighted Quantile returns at target <= 0"
+mk B12; d=$D
+edit "$d/stats/sample.go" 's.replace("\t\t\ttarget -= weight\n\t\t\tif target < 0 {", "\t\t\ttarget -= weight\n\t\t\tif target <= 0 {")'
+expect B12 "$d" C10 tie_failed tie_Sample_Quantile
+
 if [ $FULL = 1 ]; then
   echo "== full check on B1: both ties report (correspondence finds a failing input)"
   out=$(VERIF_REPO="$B1" bin/check C13 quick 2>&1); rc=$?
